@@ -19,8 +19,8 @@ C08 — the aliasing obligation over the REGENERATED inventory (`Generated/Alias
   every architecture's resolver share (Package, RepositoryPackage, the index wrappers, parsed
   versions) are written only while they are built.
 A new write site, a field added without a container of its own, `maps.Clone` replaced by plain
-assignment, a getter that returns the cached value itself, a lazily cached field: each breaks a
-theorem here.
+assignment, a getter that returns the cached value itself, a lazily cached field: each of them
+breaks one of the theorems below.
 -/
 import Apko.Proofs.Lemmas.Alias
 
